@@ -11,6 +11,7 @@ Decided (tab: writer/reader table agreement over constants and codec structure):
       number recovery tries int before float
   T4  write_python serialises strings with an escaping serialiser
   T5  wiring: save_json = stringify + encoder, load_json = decoder hook + intify
+  +   the dtype string carries byte order and item size (str(dtype) / dtype.str, not dtype.name / .char / .kind); T3 also: writer and reader agree on the csv dialect
 Not decided: csv quoting, float formatting to the written precision, exec of the parameter file.
 """
 import ast
@@ -136,10 +137,17 @@ def t1_array_codec(ctx):
         ctx.violated('C18.T1', enc, ret_node, 'decoder reads dtype from %r and shape from %r but the encoder does not write them' % (dtype_key, shape_key))
         return
     dvt, svt = unparse(dv), unparse(sv)
-    ctx.check(dvt in ('str(%s.dtype)' % obj, '%s.dtype.str' % obj, '%s.dtype.name' % obj, 'str(obj_contiguous.dtype)') or
-              (dvt.startswith('str(') and dvt.endswith('.dtype)')),
-              'C18.T1', enc, dv, 'dtype key carries the dtype of the encoded array (%s)' % dvt,
-              'dtype key is written from `%s`, which is not the array dtype' % dvt)
+    # the dtype string must identify item size AND byte order (the bytes are written in the array's own byte order): str(dtype) / dtype.str do,
+    # dtype.name / .char / .kind / .type.__name__ drop the byte order ('>i4' -> 'int32') or the size
+    dx = enc.expand(dv)
+    PD = Pat()
+    full = PD.any(['str(E_a.dtype)', 'E_a.dtype.str', 'E_a.dtype.__str__()', "'%s' % E_a.dtype", 'repr(E_a.dtype.str)[1:-1]', 'format(E_a.dtype)'], dx)
+    lossy = not full and PD.any(['E_a.dtype.name', 'E_a.dtype.char', 'E_a.dtype.kind', 'E_a.dtype.type.__name__', 'str(E_a.dtype.name)', 'str(E_a.dtype.type)', 'E_a.dtype.base.name',
+                                 'E_a.dtype.newbyteorder(ANY).str', 'str(E_a.dtype.newbyteorder(ANY))'], dx)
+    other = not full and not lossy and (isinstance(dx, ast.Constant) or not any(isinstance(n_, ast.Attribute) and n_.attr == 'dtype' for n_ in ast.walk(dx)))
+    ctx.tri(bool(full), bool(lossy) or other, 'C18.T1', enc, dv, 'dtype key carries the full dtype string of the encoded array, byte order included (%s)' % dvt,
+            ('dtype key is written from `%s`, which drops the byte order (or the item size) of the dtype: a non-native-endian array is decoded with swapped bytes' % dvt) if lossy else
+            ('dtype key is written from `%s`, which is not the array dtype' % dvt), 'how the dtype key is written (`%s`) was not recognised' % dvt)
     ctx.check(svt.endswith('.shape') or svt.startswith('list(') and svt.endswith('.shape)') or svt.startswith('tuple('),
               'C18.T1', enc, sv, 'shape key carries the array shape (%s)' % svt,
               'shape key is written from `%s`, which is not the array shape' % svt)
@@ -384,6 +392,38 @@ def _resolve(repo, fi, call):
         return []
 
 
+def csv_dialect_agreement(ctx, rule, wn, rn):
+    """The csv dialect of a writer / reader pair agrees: quoting, quote character, escape character, doubling. A reader that does not undo the quoting the writer
+    applies returns cells with literal quotes / split at a delimiter inside a cell ("strings containing the other delimiter or quotes"). Shared with C10."""
+    repo = ctx.repo
+    w, r = repo.func(M, wn), repo.func(M, rn)
+    wc, _wd, _wh = _delims(w, repo)
+    rc, _rdl, _rhome = _delims(r, repo)
+    if wc is None or rc is None:
+        ctx.undecided(rule, w, 'csv writer / reader calls of %s / %s not found' % (wn, rn))
+        return
+    DIALECT = ('quoting', 'quotechar', 'escapechar', 'doublequote', 'skipinitialspace', 'dialect', 'strict')
+    DEFAULT = {'quoting': 'csv.QUOTE_MINIMAL', 'quotechar': "'\"'", 'escapechar': 'None', 'doublequote': 'True', 'skipinitialspace': 'False', 'dialect': "'excel'", 'strict': 'False'}
+
+    def dial(call, home):
+        out = {}
+        for k in call.keywords:
+            if k.arg in DIALECT:
+                out[k.arg] = unparse(home.expand(k.value))
+            elif k.arg is None:
+                out['**'] = unparse(k.value)
+        return out
+    dw, dr = dial(wc, w), dial(rc, r)
+    diff = [k for k in DIALECT if k not in ('strict',) and dw.get(k, DEFAULT[k]) != dr.get(k, DEFAULT[k])]
+    if '**' in dw or '**' in dr:
+        ctx.undecided(rule, w, 'csv dialect of %s/%s passed through ** arguments' % (wn, rn))
+    elif diff:
+        ctx.violated(rule, r, rc, '%s reads with %s but %s writes with %s: cells the writer quotes (a delimiter, a quote or a line break inside a string) are not read back as written' %
+                     (rn, ', '.join('%s=%s' % (k, dr.get(k, DEFAULT[k])) for k in diff), wn, ', '.join('%s=%s' % (k, dw.get(k, DEFAULT[k])) for k in diff)))
+    else:
+        ctx.holds(rule, w, '%s and %s use the same csv dialect (quoting, quote / escape characters, doubling)' % (wn, rn), wc)
+
+
 def t3_tsv(ctx):
     repo = ctx.repo
     pairs = [('write_tsv', 'read_tsv'), ('_write_tsv_simple', '_read_tsv_simple')]
@@ -391,6 +431,7 @@ def t3_tsv(ctx):
         w, r = repo.func(M, wn), repo.func(M, rn)
         wc, wd, _wh = _delims(w, repo)
         rc, rdl, rhome = _delims(r, repo)
+        csv_dialect_agreement(ctx, 'C18.T3', wn, rn)
         wt, rt = _ifexp_table(wd) if wd is not None else None, _ifexp_table(rdl) if rdl is not None else None
         if not wt or not rt:
             ctx.undecided('C18.T3', w, 'delimiter choice of %s/%s is not a two-way constant table' % (wn, rn), wc or rc)
